@@ -27,7 +27,8 @@ RULE = ("case = (npre npost v0 (v1..vn)): a view value v0 drawn from the grammar
         "root, as a member of a fixed tuple or as the child of a fixed element; sides given as Some(new value) - also "
         "the hidden one - or None = no change, switches of show_b; oracle only: the from-scratch render uses the values "
         "the sides hold). One case in 8 is a STATICALLY TYPED template (harness/dom/src/c03t.rs, 140 templates, no "
-        "AnyView inside: &str / String / Rc<str> / Arc<str> / Cow texts with shared and fresh pointers, 22 primitive "
+        "AnyView inside: &str / String / Rc<str> / Arc<str> / Cow texts with shared and fresh pointers, &str values that are "
+        "prefixes of ONE buffer (same start address, different lengths) as text, child, attribute, class, style, inner_html, 22 primitive "
         "types, tuples of 1-13, Option, Vec, arrays, Either, EitherOf3/4/7, Result, StaticVec, keyed, EitherKeepAlive, "
         "InertElement, ViewTemplate; elements p/div/input/br/img/custom element/svg/mathml with every AttributeValue "
         "(&str, String, &String, Arc<str>, bool, numbers, char, (), Option of each), IntoClass (&str, String, Cow, "
@@ -397,6 +398,9 @@ TEMPLATES = {
     27: "EitherKeepAlive<String, (String, &str)>", 28: "Option<Vec<String>>", 29: "(Vec<String>, Option<String>, &str)",
     30: "InertElement", 31: "()", 32: "Vec<Either<String, (String, String)>>", 33: "keyed list of (String, <span>) rows",
     34: "Result<Vec<String>, E>", 35: "(Rc<str>, Option<Rc<str>>, Vec<Rc<str>>)",
+    36: "&str prefixes of ONE buffer (same start address, different lengths)", 37: "(&str prefix, String, &str prefix)",
+    38: "Option<&str prefix>", 39: "Vec<&str prefix>", 40: "Cow::Borrowed(&str prefix)", 41: "[&str prefix; 2]",
+    42: "Either<&str prefix, String>",
     100: "u8", 101: "u16", 102: "u32", 103: "u64", 104: "u128", 105: "usize", 106: "i8", 107: "i16", 108: "i32", 109: "i64",
     110: "i128", 111: "isize", 112: "f32", 113: "f64", 114: "char", 115: "bool", 116: "Ipv4Addr", 117: "IpAddr", 118: "SocketAddr",
     119: "NonZeroU8", 120: "NonZeroI64", 121: "NonZeroUsize",
@@ -417,6 +421,9 @@ TEMPLATES = {
     270: "<div id=Option<&str> hidden=bool class=&str style:color=&str>{(&str, <span>{String}, Option<&str>)}",
     271: "<div> with nine attributes", 272: "<ul>{Vec<<li>{String}>}", 273: "<div>{Either<<p id>, <span>>}",
     274: "<div>{(Option<<span class>>, Vec<String>, <p>{i32})}", 280: "ViewTemplate<<div>{(&str, <span>{String}, String)}>",
+    290: "<p>{&str prefix of one buffer}", 291: "<div id=&str prefix title=Option<&str prefix>>{(&str prefix, <span>{&str prefix})}",
+    292: "<div class=&str prefix>{&str prefix}", 293: "<div class=Option<&str prefix>>", 294: "<div style=&str prefix>",
+    295: "<div style:color=&str prefix>", 296: "<div inner_html=&str prefix>", 297: "<div data-x=&str prefix>",
     281: "ViewTemplate<<p id=&str class=&str>{&str}>",
     282: "ViewTemplate<<div id=&str>{(&str, <span class=&str>{String}, String)}>",
 }
